@@ -229,10 +229,7 @@ structure WCfg where
   respond : Nat → Parser → Bytes
 
 /-- `path = self.request.path or b'/'` -/
-def webPath (p : Parser) : Bytes :=
-  match p.path with
-  | some x => if x.isEmpty then [SLASH] else x
-  | none => [SLASH]
+abbrev webPath (p : Parser) : Bytes := Px.Reverse.webPath p
 
 /-- `_try_route`: first route (dict order) whose pattern matches `text_(path)` -/
 def tryRoute (cfg : WCfg) (path : Bytes) : Option Nat :=
@@ -339,7 +336,7 @@ def RSt.current (s : RSt) : Option Nat :=
   | some _ => if s.wrote.isEmpty then none else some (s.wrote.length - 1)
   | none => none
 
-def pathOf (p : Parser) : Bytes := p.path.getD []
+def revPath (p : Parser) : Bytes := p.path.getD []
 
 /-- bookkeeping after a `handle_request`: one more `wrote` slot per connect attempt that succeeded
     (static routes, connects always succeed here) -/
@@ -388,7 +385,7 @@ def rstep (cfg : RCfg) (s : RSt) (e : REv) : RSt :=
         | .ok p =>
           if p.state == .complete then
             -- `self.route.handle_request(self.pipeline_request)`: routes again, opens a NEW upstream
-            let r := Px.Reverse.handleRequest cfg.rv (cfg.matchPat (pathOf p)) (fun _ => 0) true cfg.table p s.rv
+            let r := Px.Reverse.handleRequest cfg.rv (cfg.matchPat (revPath p)) (fun _ => 0) true cfg.table p s.rv
             let s1 := afterHandle s r
             if s1.phase != .routed then { s1 with pipe := some p }
             else if !isKeepAlive p then { s1 with phase := .closing, pipe := some p }
